@@ -251,7 +251,7 @@ def run_states(ctx):
     all_lines, expect = [], []
     for name, fname, n_descr, n_states in mdib_variants(ctx):
         rng = ctx.subrng('mdib', name)
-        bench = lt.Bench(fname)
+        bench = lt.Bench(fname, role_providers=False)
         if n_descr or n_states:
             extend_mdib(bench, rng, n_descr, n_states)
         tabs = tables(bench)
@@ -383,7 +383,7 @@ def texts_line(query):
 def run_texts(ctx):
     from sdc11073.provider.porttypes import localizationservice as ls
     from sdc11073.xml_types.pm_types import LocalizedTextWidth
-    bench = lt.Bench(lt.MDIB_SINGLE)
+    bench = lt.Bench(lt.MDIB_SINGLE, role_providers=False)
     loc = bench.device.hosted_services.localization_service
     lines, expect = [], []
     # the _tw2i table (exhaustive)
@@ -498,7 +498,7 @@ def replay(ctx, obj):
         with mock.patch('uuid.uuid4', _Uuid(ctx.subrng('uuid'))):
             # rebuild the same variant: variants are regenerated in order so that uuid draws agree
             for vname, vf, nd, ns in mdib_variants(ctx):
-                bench = lt.Bench(vf)
+                bench = lt.Bench(vf, role_providers=False)
                 if nd or ns:
                     extend_mdib(bench, ctx.subrng('mdib', vname), nd, ns)
                 if vname == name:
